@@ -41,6 +41,11 @@ CHECKS.update({
          "All parameter states reachable from three safe corners under requests over a 12-value 64-bit alphabet are enumerated to fixpoint (no depth bound); the bounds invariant and deposit tax/amount/dust conditions are checked in every state.",
          "Parameter values outside the alphabet are not covered; states are materialised by writing Params on a branch.", "DESIGN.md section 4 C20"),
 })
+CHECKS.update({
+ "C05": ("keepermc", "explicit-state DFS over interleavings of user requests and relayer actions on the real bridge keeper/handlers against a reference life-cycle model, with all ill-formed action variants tried in every distinct state",
+         "Every interleaving up to the depth bound over ids 1..3 is executed on the real handlers with genuine 2-member quorum votes; each step is compared with a reference life-cycle model (status, terms, paid amount, notices at most once, never both); in every distinct state 25 kinds of ill-formed process/replace/finalize variants must fail and leave the store unchanged.",
+         KB_NOTE + " Withdrawal ids are unique (bridge contract); finalisation blocks are injected into BlockHashes.", "DESIGN.md section 4 C05"),
+})
 PENDING = {}
 
 def main():
